@@ -25,6 +25,38 @@ NOT_DECIDED = "Score accumulation values, htslib output bytes, overlapping user 
 ASSUMPTIONS = ["pysam: set_tag(tag, None) removes the tag", "bam_reader.fetch(contig=c, start, stop) yields every alignment overlapping the region once"]
 
 
+def _order_chain(fnode, e, depth=0):
+    """Follow an iterable back through order-preserving views: ("preserved", base) | ("reordered", text) | ("unknown", text)."""
+    if depth > 8:
+        return "unknown", u(e)
+    if isinstance(e, ast.Name):
+        if e.id in util.params_of(fnode):
+            return "preserved", e
+        d = util.single_def(fnode, e.id)
+        if d is None:
+            return "preserved", e
+        return _order_chain(fnode, d, depth + 1)
+    if isinstance(e, ast.Call):
+        f = u(e.func)
+        if f in ("sorted", "reversed", "set", "frozenset", "natsorted") or (isinstance(e.func, ast.Attribute) and e.func.attr in ("most_common",)):
+            return "reordered", u(e)[:80]
+        if f in ("list", "tuple", "iter", "dict", "OrderedDict", "enumerate") and len(e.args) == 1:
+            return _order_chain(fnode, e.args[0], depth + 1)
+        if isinstance(e.func, ast.Attribute) and e.func.attr in ("items", "keys", "values", "copy") and not e.args:
+            return _order_chain(fnode, e.func.value, depth + 1)
+        return "preserved", e
+    if isinstance(e, ast.Subscript) and isinstance(e.slice, ast.Slice):
+        st = e.slice.step
+        if st is not None and not (isinstance(st, ast.Constant) and isinstance(st.value, int) and st.value > 0):
+            return "reordered", u(e)[:80]
+        return _order_chain(fnode, e.value, depth + 1)
+    if isinstance(e, (ast.ListComp, ast.GeneratorExp, ast.DictComp)) and len(e.generators) == 1:
+        return _order_chain(fnode, e.generators[0].iter, depth + 1)
+    if isinstance(e, (ast.Attribute,)):
+        return "preserved", e
+    return "unknown", u(e)[:80]
+
+
 def r1(ctx):
     run = ctx.func(MOD + ".run_haplotag")
     cfg = ctx.cfg(run)
@@ -84,6 +116,26 @@ def r1(ctx):
         elif in_handler is None and ("%s in has_alignments" % chromv, False) in ga:
             kind = "no alignment on this chromosome"
         ctx.ob(run.qual, "chromosome-skip:%s" % ";".join(conds + ([in_handler] if in_handler else [])), kind is not None, run.loc(c), "chromosome skipped only because: %s" % kind if kind else "a chromosome (and all its alignments) is skipped under an undocumented condition")
+    # input order: chromosomes are processed in the order of the BAM header
+    nr0 = ctx.func(MOD + ".normalize_user_regions")
+    how, base = _order_chain(run.node, cl.iter)
+    ok = None
+    why = "cannot tell in which order `%s` yields the chromosomes" % u(cl.iter)[:80]
+    if how == "reordered":
+        ok, why = False, "the chromosome loop runs over `%s`: alignments of whole contigs are written in another order than they were read (the BAM header keeps its order)" % base
+    elif how == "preserved" and isinstance(base, ast.Call) and u(base.func) == "normalize_user_regions" and len(base.args) == 2:
+        refs = u(base.args[1])
+        rp = util.params_of(nr0.node)[1]
+        fills = [n for n in walk_function(nr0.node) if isinstance(n, ast.For) and ("None is %s" % util.params_of(nr0.node)[0], True) in guard_atoms(ctx.cfg(nr0), ctx.cfg(nr0).node_of(n))]
+        rets = [n for n in walk_function(nr0.node) if isinstance(n, ast.Return) and n.value is not None]
+        if len(fills) == 1 and len(rets) == 1:
+            h2, b2 = _order_chain(nr0.node, fills[0].iter)
+            h3, b3 = _order_chain(nr0.node, rets[0].value)
+            if "reordered" in (h2, h3):
+                ok, why = False, "normalize_user_regions orders the references as `%s`, not as the BAM header does" % (b2 if h2 == "reordered" else b3)
+            elif h2 == "preserved" and isinstance(b2, ast.Name) and b2.id == rp and h3 == "preserved" and refs.endswith(".references"):
+                ok, why = True, "chromosomes are processed in the order of %s (insertion order of the region map), so alignments are written in input order" % refs
+    ctx.ob(run.qual, "chromosomes-in-header-order", ok, run.loc(cl), why)
     exits = [e for e in util.lexical_loop_exits(cl) if not any(e in list(ast.walk(l)) for l in loops)]
     ctx.ob(run.qual, "chromosome-loop-no-early-exit", not exits, run.loc(exits[0]) if exits else run.loc(cl), "the chromosome loop runs over every reference of the BAM" if not exits else "the chromosome loop can be left before all chromosomes are processed")
     # regions default covers every reference
@@ -353,12 +405,20 @@ def r4(ctx):
     ctx.ob(fi.qual, "score-adds-quality-on-agreement", ok, fi.loc(aug[0]) if aug else fi.loc(), "a haplotype's score grows by the allele quality exactly when the read's allele equals the haplotype's allele, within the variant's phase set" if ok else "score accumulation is not `+= v.quality` under v.allele == hap_allele into [phaseset][hap_index]")
 
 
+def r5(ctx):
+    # the variant cursor shared by all reads of a chromosome (C06.R8) decides which variants a read is scored on
+    from rules import c06
+
+    c06.r8(ctx)
+
+
 RULES = [
     ("C10.R1", "alignment conservation: one write per fetched alignment, documented skips", r1),
     ("C10.R2", "tag confinement: only set_tag HP/PS/PC touches an alignment", r2),
     ("C10.R3", "stale tags: HP/PS/PC defined on every path to the write", r3),
     ("C10.R4", "tie and empty rejection; tuple layouts; tag values", r4),
+    ("C10.R5", "variant cursor skips only variants strictly left of the read", r5),
 ]
 # instance floors: about 60% of the instances confirmed by hand on the reference tree -- a rule that suddenly matches far fewer
 # sites fails the run (exit 2); a clean-up that merges two sites into one does not
-FLOORS = {"C10.R1": 5, "C10.R2": 3, "C10.R3": 4, "C10.R4": 9}
+FLOORS = {"C10.R1": 5, "C10.R2": 3, "C10.R3": 4, "C10.R4": 9, "C10.R5": 2}
